@@ -165,3 +165,81 @@ func VerifC16_PollerByzantine() {
 	}
 	sym.Assert(reqs[len(reqs)-1].FirstInstance <= first+stored, "requests-never-skip-instances")
 }
+
+// VerifC16_PollerRacesLocalProgress: while a request is under way the local
+// GPBFT instance finishes one or two instances; the (honest) peer's response
+// overlaps with what arrived locally.  The poller still advances over the
+// whole valid response, stores what the store does not hold yet, never calls
+// the honest peer illegal, and after catching up its next instance and power
+// table are those of the store.
+func VerifC16_PollerRacesLocalProgress() {
+	ctx := context.Background()
+	const first = uint64(0)
+	tidx := []int{0, 1, 1, 2, 3}
+	all, tables := certs.VerifCertSeqTables(first, tidx)
+	held := sym.Choice("held", 2)
+	cs := certstore.VerifNewStoreWith(first, tables[0], all[:held]...)
+	h := &certexchange.VerifHost{}
+	p, err := NewPoller(ctx, &certexchange.Client{Host: h, NetworkName: "verif"}, cs, gpbft.VerifCrypto{})
+	sym.Assume(err == nil)
+	start := held
+	d := 1 + sym.Choice("local-during-request-minus-1", 2)
+	n := sym.Choice("peer-sends", 4)
+	if start+d > verifUniverse || start+n > verifUniverse {
+		sym.Assume(false)
+	}
+	done := false
+	h.OnStream = func() {
+		if !done {
+			done = true
+			for _, c := range all[start : start+d] {
+				if err := cs.Put(ctx, c); err != nil {
+					panic(err)
+				}
+			}
+		}
+	}
+	h.Responses = [][]byte{certexchange.VerifResponse(first+uint64(start+n), nil, 0, all[start:start+n]...)}
+	res, err := p.Poll(ctx, "peer")
+	sym.Assert(err == nil && res != nil, "poll-has-no-internal-error")
+	if err != nil || res == nil {
+		return
+	}
+	sym.Cover("raced")
+	sym.Assert(res.Status != PollIllegal, "an honest peer is never classified illegal")
+	sym.Assert(res.Status == PollHit, "a peer that is at least as far as the request is a hit")
+	want := uint64(max(start+d, start+n))
+	latest := cs.Latest()
+	sym.Assert(latest != nil && latest.GPBFTInstance+1 == first+want, "store holds everything that arrived, locally or from the peer")
+	for i := uint64(0); i < want; i++ {
+		c, err := cs.Get(ctx, first+i)
+		sym.Assert(err == nil && certstore.VerifCertEq(c, all[i]), "stored-certificates-are-the-genuine-ones")
+	}
+	sym.Assert(res.ReceivedCertificates == uint64(n), "every valid certificate of the response is counted")
+	_, err = p.CatchUp(ctx)
+	sym.Assert(err == nil && p.NextInstance == first+want && p.PowerTable.Equal(tables[want]), "after catching up the poller is where the store is")
+}
+
+// VerifC16_PollerStopsAsking: a peer that served one certificate and then keeps
+// claiming to have more while sending none does not keep the poller asking for
+// ever: a response that brings no progress ends the poll.
+func VerifC16_PollerStopsAsking() {
+	ctx := context.Background()
+	const first = uint64(0)
+	all, tables := certs.VerifCertSeqTables(first, []int{0, 1, 1, 2, 3})
+	cs := certstore.VerifNewStoreWith(first, tables[0])
+	h := &certexchange.VerifHost{}
+	p, err := NewPoller(ctx, &certexchange.Client{Host: h, NetworkName: "verif"}, cs, gpbft.VerifCrypto{})
+	sym.Assume(err == nil)
+	served := 1 + sym.Choice("served-first-minus-1", 2)
+	h.Responses = [][]byte{certexchange.VerifResponse(first+9, nil, 0, all[:served]...)}
+	empties := 2 + sym.Choice("empty-responses-minus-2", 4)
+	for i := 0; i < empties; i++ {
+		h.Responses = append(h.Responses, certexchange.VerifResponse(first+9, nil, 0))
+	}
+	res, err := p.Poll(ctx, "peer")
+	sym.Assert(err == nil && res != nil, "poll-has-no-internal-error")
+	sym.Cover("polled")
+	sym.Assert(h.Opened() <= 2, "KNOWN:c16-poller-keeps-asking:a response that brings no progress ends the poll")
+	sym.Assert(p.NextInstance == first+uint64(served), "advanced by what was served")
+}
